@@ -25,6 +25,7 @@ type runConfig struct {
 	MaxPaths      int
 	SolverKind    string
 	SolverTimeout int
+	FallbackKind  string
 	Verbose       bool
 	Trace         bool
 	Interleave    bool
@@ -34,36 +35,38 @@ type runConfig struct {
 }
 
 type harnessResult struct {
-	Harness      string
-	Paths        int
-	Outcomes     map[string]int
-	Violations   []*violation
-	Inconclusive []string
-	Reached      map[string]int
-	AssertsUnsat int
-	AssertsTriv  int
-	Funcs        map[string]bool
-	Queries      int
-	SolverSat    int
-	SolverUnsat  int
-	SolverUnk    int
-	SolverErrs   int
-	SolverTime   time.Duration
-	Wall         time.Duration
-	Samples      [][]replayInput
-	Complete     bool
-	MaxTrace     int
-	Steps        int64
+	Harness         string
+	Paths           int
+	Outcomes        map[string]int
+	Violations      []*violation
+	Inconclusive    []string
+	Reached         map[string]int
+	AssertsUnsat    int
+	AssertsTriv     int
+	Funcs           map[string]bool
+	Queries         int
+	FallbackQueries int
+	SolverSat       int
+	SolverUnsat     int
+	SolverUnk       int
+	SolverErrs      int
+	SolverTime      time.Duration
+	Wall            time.Duration
+	Samples         [][]replayInput
+	Complete        bool
+	MaxTrace        int
+	Steps           int64
 }
 
-func runPath(p *program, cfg *runConfig, solver *Solver, entry *ssa.Function, prefix []dec) (res pathResult) {
+func runPath(p *program, cfg *runConfig, solver *Solver, fallback func() *Solver, entry *ssa.Function, prefix []dec) (res pathResult) {
 	solver.Reset()
 	ex := &exec{
 		cfg: cfg, solver: solver, prog: p, prefix: prefix,
 		reached: map[string]bool{}, tags: map[string]string{}, funcs: map[string]bool{},
 		concCount: map[string]int{}, mstates: map[*value]*mstate{}, syncMaps: map[*value]*gmap{},
 		globals: map[*ssa.Global]*value{}, inited: map[*ssa.Package]bool{},
-		exitAck: make(chan struct{}), known: map[*Term]bool{}, ubounds: map[*Term]uint64{},
+		fallback: fallback,
+		exitAck:  make(chan struct{}), known: map[*Term]bool{}, ubounds: map[*Term]uint64{}, lbounds: map[*Term]uint64{}, fromInts: map[*Term]*Term{},
 	}
 	mainG := &gor{id: 0, wake: make(chan struct{}), main: true}
 	ex.gors = []*gor{mainG}
@@ -159,7 +162,7 @@ func explore(p *program, cfg *runConfig, entry *ssa.Function) *harnessResult {
 
 	var mu sync.Mutex
 	cond := sync.NewCond(&mu)
-	work := [][]dec{nil}
+	work := [][]dec{startPrefix}
 	inflight := 0
 	stopped := false
 	seenViol := map[string]bool{}
@@ -174,6 +177,22 @@ func explore(p *program, cfg *runConfig, entry *ssa.Function) *harnessResult {
 			mu.Unlock()
 			return
 		}
+		var fb *Solver
+		getFallback := func() *Solver {
+			if fb == nil && cfg.FallbackKind != "" {
+				fb, _ = NewSolver(cfg.FallbackKind, cfg.SolverTimeout)
+			}
+			return fb
+		}
+		defer func() {
+			if fb != nil {
+				mu.Lock()
+				hr.FallbackQueries += fb.Queries
+				hr.SolverTime += fb.SolveTime
+				mu.Unlock()
+				fb.Close()
+			}
+		}()
 		if smtLogPath != "" {
 			f, _ := os.Create(fmt.Sprintf("%s.%d", smtLogPath, id))
 			solver.log = f
@@ -205,7 +224,7 @@ func explore(p *program, cfg *runConfig, entry *ssa.Function) *harnessResult {
 			inflight++
 			mu.Unlock()
 
-			res := runPath(p, cfg, solver, entry, prefix)
+			res := runPath(p, cfg, solver, getFallback, entry, prefix)
 
 			mu.Lock()
 			inflight--
